@@ -13,6 +13,7 @@ Spec == Init /\ [][Next]_vars
 Final == I!Finish(s).w
 Cex(name) == PrintT(<<"CEX", ToJson([inv |-> name, h |-> hist])>>) /\ FALSE
 RowsOnceInOrder == O!SameRowsOpt(O!Expected(hist), Final) \/ Cex("RowsOnceInOrder")
+LanguageByName == O!LanguageByName(hist, I!Finish(s).sy) \/ Cex("LanguageByName")
 Lag == O!LagOK(hist, s.w, Buf) \/ Cex("Lag")
 PrefixStable == O!IsPrefixOf(s.w, Final) \/ Cex("PrefixStable")
 Replay == Len(hist) = 0 \/ Len(hist) > ReplayLen \/ PrintT(<<"REPLAY", ToJson([h |-> hist, done |-> E!Complete(gs)])>>)
